@@ -212,6 +212,90 @@ def check(cx):
                 cx.verdict(bool(src & {"undo", "redo"}), r8, "%s#%d" % (f.id, n), c.where(), "decodes Operation::%s()" % sorted(src & {"undo", "redo"}),
                            "the decoded bytes do not come from the log record")
 
+    # ---- C08.13 the DDL handlers decode each payload slot as what the statement put there --------------------------------------
+    r13 = cx.rule("C08.13", "SIB/TAB: writer table (log_create/log_drop/log_alter call sites: which instruction type is serialised into "
+                  "the undo and into the redo slot of a Create/DropOp/Alter record, slots derived from X::new and the Operation accessors) "
+                  "agrees with the reader table (the recovery handlers: which instruction type they decode from which accessor): a "
+                  "handler that decodes the other slot finds nothing and silently skips the operation", floor=6)
+    LOGOPS = {"log_create": "io::logger::Create", "log_drop": "io::logger::DropOp", "log_alter": "io::logger::Alter"}
+    W = {}
+    try:
+        for lg, rec in LOGOPS.items():
+            fl = p.raw_fns.get(K.LOGGER + "::" + lg)
+            fnew = p.raw_fns.get(rec + "::new")
+            if fl is None or fnew is None:
+                raise AnchorMissing("%s / %s::new not found" % (lg, rec))
+            # constructor: parameter -> field
+            field_of_param = {}
+            for b in fnew.blocks:
+                for st in b["stmts"]:
+                    if st["rv"].get("r") == "agg" and st["rv"].get("adt") == rec:
+                        for fld, o in zip(st["rv"]["fields"], st["rv"]["o"]):
+                            l = op_local(o)
+                            for k_, x in (fnew.nearest_calls(l) if l is not None else ()):
+                                if k_ == "param":
+                                    field_of_param[x] = fld
+            # accessors: slot -> field
+            slot_of_field = {}
+            for slot in ("undo", "redo"):
+                fa = p.raw_fns.get("<%s as io::logger::Operation>::%s" % (rec, slot))
+                if fa is None:
+                    raise AnchorMissing("%s::%s accessor not found" % (rec, slot))
+                for b in fa.blocks:
+                    for st in b["stmts"]:
+                        if st["rv"].get("r") == "ref":
+                            for pe in st["rv"]["p"][1:]:
+                                if isinstance(pe, str) and pe.endswith(":" + rec):
+                                    slot_of_field[pe[1:].split(":")[0]] = slot
+            # log_X: own parameter -> constructor parameter
+            slot_of_logparam = {}
+            for c in fl.calls():
+                if c.callee == rec + "::new":
+                    for j, a in enumerate(c.args):
+                        l = op_local(a)
+                        for k_, x in (fl.nearest_calls(l) if l is not None else ()):
+                            if k_ == "param" and (j + 1) in field_of_param and field_of_param[j + 1] in slot_of_field:
+                                slot_of_logparam[x] = slot_of_field[field_of_param[j + 1]]
+            if set(slot_of_logparam.values()) != {"undo", "redo"}:
+                raise AnchorMissing("could not derive the undo/redo parameters of %s" % lg)
+            for site in K.sites(p, K.LOGGER + "::" + lg):
+                if site.callee != K.LOGGER + "::" + lg:
+                    continue
+                for pi, slot in slot_of_logparam.items():
+                    if pi - 1 < len(site.args) and op_local(site.args[pi - 1]) is not None:
+                        for k_, x in site.fn.nearest_calls(op_local(site.args[pi - 1])):
+                            if k_ == "call" and x.endswith("::to_bytes"):
+                                W.setdefault((rec, slot), set()).add(x[:-len("::to_bytes")].rsplit("::", 1)[-1].strip("<>"))
+        types_written = set().union(*W.values()) if W else set()
+        handlers = [g for g in K.each_fn(p) if g.impl_adt == RECUP and g.kind != "closure" and g.nargs >= 2
+                    and g.locals[2].lstrip("&").strip() in LOGOPS.values()]
+        if not handlers:
+            cx.bad(r13, "handlers:anchor-missing", "", "no recovery handler takes a Create/DropOp/Alter record")
+        for g in sorted(handlers, key=lambda x: x.id):
+            rec = g.locals[2].lstrip("&").strip()
+            n_dec = 0
+            for c in g.calls():
+                if not c.callee.endswith("::from_bytes") or not c.args or op_local(c.args[0]) is None:
+                    continue
+                ty = c.callee[:-len("::from_bytes")].rsplit("::", 1)[-1].strip("<>")
+                if ty not in types_written:
+                    continue            # a generic fallback decoder: nothing is ever written in that form
+                slots = {x.rsplit("::", 1)[-1] for k_, x in g.nearest_calls(op_local(c.args[0])) if k_ == "call" and x.rsplit("::", 1)[-1] in ("undo", "redo")
+                         and "Operation" in x}
+                for slot in sorted(slots):
+                    n_dec += 1
+                    other = "redo" if slot == "undo" else "undo"
+                    if ty not in W.get((rec, slot), ()) and ty not in W.get((rec, other), ()):
+                        continue        # a form no statement logs in this kind of record (defensive decode): nothing to agree with
+                    cx.verdict(ty in W.get((rec, slot), ()), r13, "%s:%s<-%s" % (g.name, ty, slot), c.where(),
+                               "the statement serialises %s into %s.%s()" % (sorted(W.get((rec, slot), ())), rec.rsplit("::", 1)[-1], slot),
+                               "%s decodes a %s from %s.%s(), where the statement puts %s: the decode fails, the handler returns Ok and the "
+                               "logged operation is never replayed" % (g.name, ty, rec.rsplit("::", 1)[-1], slot, sorted(W.get((rec, slot), ())) or "nothing"))
+            if n_dec == 0:
+                cx.bad(r13, g.name + ":no-decode", g.where(), "%s decodes no instruction from its record's undo()/redo() payload" % g.name)
+    except AnchorMissing as e:
+        cx.bad(r13, "anchor-missing", "", str(e))
+
     # ---- C08.3 advisory -------------------------------------------------------------------------------------
     r3 = cx.rule("C08.3", "advisory: RecordHeader.total_size read from a log block is used for slicing/cursor "
                  "arithmetic without a bound check against the block's used_bytes")
